@@ -335,8 +335,8 @@ func traverseAST(node *sitter.Node, sourceCode []byte, graph *CodeGraph, current
 		graph.AddNode(whileStmtNode)
 	case "do_statement":
 		doWhileNode := model.DoStmt{}
-		// get the condition of the while statement
-		conditionNode := node.Child(2)
+		// get the condition of the do-while statement (child 2 is the `while` keyword)
+		conditionNode := node.ChildByFieldName("condition")
 		if conditionNode != nil {
 			doWhileNode.Condition = &model.Expr{Node: *conditionNode, NodeString: conditionNode.Content(sourceCode)}
 		}
